@@ -35,3 +35,17 @@ package conway
 //@   loop 0 invariant forall a *common.Address :: visited[a] && w[a] != nil && val(w[a]) != 0 && a.StakeCredential$ok() ==>
 //@            ls.DRepDelegation$0(a.StakeCredential$cred()) != nil
 //@   loop 0 invariant !isDS ==> forall a *common.Address :: visited[a] ==> w[a] == nil || val(w[a]) == 0
+
+// C32: collateral balance (inputs minus collateral return) * 100 >= fee * collateral percentage.
+//@ func UtxoValidateInsufficientCollateral(tx, slot, ls, pp) (err)
+//@   props C32
+//@   let ins = tx.Collateral()
+//@   let atx = unbox(tx, type(*ConwayTransaction))
+//@   let app = unbox(pp, type(*ConwayProtocolParameters))
+//@   let typed = dyn(tx) == type(*ConwayTransaction) && dyn(pp) == type(*ConwayProtocolParameters)
+//@   let nred = ite(atx.WitnessSet.WsRedeemers.legacy, len(atx.WitnessSet.WsRedeemers.legacyRedeemers.Redeemers), len(atx.WitnessSet.WsRedeemers.Redeemers))
+//@   let bal = common.collSum(ins, ls, len(ins)) - common.collReturnAmt(tx)
+//@   ensures types: !typed ==> err != nil
+//@   ensures exact: typed && err == nil && nred != 0 ==> bal * 100 >= N(atx.Body.TxFee) * N(app.CollateralPercentage)
+//@   cover accepts: typed && err == nil && nred != 0 && len(ins) > 0
+//@   loop 0 invariant rangeindex < len(ins) && val(totalCollateral) == common.collSum(ins, ls, rangeindex + 1)
